@@ -20,6 +20,8 @@ pub enum Step {
     /// blocking: ErrorKind::Interrupted
     Intr,
     Fault(io::ErrorKind),
+    /// (first step only) fail with this kind exactly when `offset` octets have been delivered
+    FaultAt(usize, io::ErrorKind),
 }
 
 pub fn kind_name(k: io::ErrorKind) -> String {
@@ -50,6 +52,9 @@ pub struct Shared {
     pub pos: Arc<Mutex<usize>>,
     /// largest `pos + want` ever offered
     pub reach: Arc<Mutex<usize>>,
+    /// set by the harness once parsing has returned: the rest of the script is dropped and the
+    /// source simply delivers (the payload is then read without scripted not-ready results)
+    pub plain: Arc<AtomicBool>,
 }
 impl Shared {
     pub fn new() -> Shared {
@@ -58,6 +63,16 @@ impl Shared {
             deferred: Arc::new(Mutex::new(None)),
             pos: Arc::new(Mutex::new(0)),
             reach: Arc::new(Mutex::new(0)),
+            plain: Arc::new(AtomicBool::new(false)),
+        }
+    }
+    pub fn dup(&self) -> Shared {
+        Shared {
+            log: self.log.clone(),
+            deferred: self.deferred.clone(),
+            pos: self.pos.clone(),
+            reach: self.reach.clone(),
+            plain: self.plain.clone(),
         }
     }
     pub fn take_log(&self) -> Vec<J> {
@@ -73,13 +88,20 @@ pub struct Scripted {
     default_chunk: usize,
     sh: Shared,
     log_reads: bool,
+    fault_at: Option<(usize, io::ErrorKind)>,
 }
 
 impl Scripted {
     pub fn new(data: Arc<Vec<u8>>, script: Vec<Step>, default_chunk: usize, log_reads: bool) -> (Scripted, Shared) {
         let sh = Shared::new();
-        let sh2 = Shared { log: sh.log.clone(), deferred: sh.deferred.clone(), pos: sh.pos.clone(), reach: sh.reach.clone() };
-        (Scripted { data, pos: 0, script: script.into(), default_chunk, sh, log_reads }, sh2)
+        let sh2 = sh.dup();
+        let mut script: VecDeque<Step> = script.into();
+        let mut fault_at = None;
+        if let Some(Step::FaultAt(o, k)) = script.front().cloned() {
+            fault_at = Some((o, k));
+            script.pop_front();
+        }
+        (Scripted { data, pos: 0, script, default_chunk, sh, log_reads, fault_at }, sh2)
     }
 
     fn note(&self, j: J) {
@@ -89,12 +111,29 @@ impl Scripted {
     }
 
     fn next_step(&mut self) -> Step {
-        self.script.pop_front().unwrap_or(Step::Deliver(self.default_chunk))
+        if self.sh.plain.load(Ordering::SeqCst) {
+            return Step::Deliver(usize::MAX);
+        }
+        if let Some((o, k)) = self.fault_at {
+            if self.pos == o {
+                self.fault_at = None;
+                return Step::Fault(k);
+            }
+        }
+        match self.script.pop_front().unwrap_or(Step::Deliver(self.default_chunk)) {
+            Step::FaultAt(_, k) => Step::Fault(k),
+            s => s,
+        }
     }
 
     fn deliver(&mut self, n: usize, buf: &mut [u8]) -> usize {
         let left = self.data.len() - self.pos;
-        let k = n.min(buf.len()).min(left);
+        let mut k = n.min(buf.len()).min(left);
+        if let Some((o, _)) = self.fault_at {
+            if o > self.pos {
+                k = k.min(o - self.pos);
+            }
+        }
         buf[..k].copy_from_slice(&self.data[self.pos..self.pos + k]);
         self.pos += k;
         *self.sh.pos.lock().unwrap() = self.pos;
@@ -132,7 +171,7 @@ impl Read for Scripted {
                 self.note(json!({"ev":"read","want":want,"pos":pos,"r":"err","kind":"WouldBlock"}));
                 Err(io::Error::new(io::ErrorKind::WouldBlock, "scripted would-block"))
             }
-            Step::Fault(k) => {
+            Step::Fault(k) | Step::FaultAt(_, k) => {
                 self.note(json!({"ev":"read","want":want,"pos":pos,"r":"err","kind":kind_name(k)}));
                 Err(io::Error::new(k, "scripted fault"))
             }
@@ -170,7 +209,7 @@ impl AsyncRead for Scripted {
                 cx.waker().wake_by_ref();
                 Poll::Pending
             }
-            Step::Fault(k) => {
+            Step::Fault(k) | Step::FaultAt(_, k) => {
                 self.note(json!({"ev":"read","want":want,"pos":pos,"r":"err","kind":kind_name(k)}));
                 Poll::Ready(Err(io::Error::new(k, "scripted fault")))
             }
